@@ -3,7 +3,7 @@ records events (value projections, identity tokens, argument objects, class defa
 import copy
 import random
 
-from . import common, scenarios as S
+from . import common, sched, scenarios as S
 from spec_classes import MISSING, UNCHANGED
 from spec_classes.types import KeyedList, KeyedSet
 
@@ -24,7 +24,14 @@ def _boom1(x):
     return x
 
 
+def _boomv1(c):
+    if getattr(c, "v", None) == 1 and not isinstance(c, dict):
+        raise ZeroDivisionError("boomv1")
+    return c
+
+
 FN = {
+    "boomv1": _boomv1,
     "same": lambda x: x,
     "inc": _inc,
     "pclip": lambda x: min(x, 1) if isinstance(x, int) else x,
@@ -54,7 +61,8 @@ class World:
         self.name = name
         self.scn = scn or S.SCENARIOS[name]
         self.counts = {}
-        self.ns = {"FN": FN, "GETTERS": GETTERS, "COUNTS": self.counts, "__name__": f"scn_{name}"}
+        self.kept = []
+        self.ns = {"FN": FN, "GETTERS": GETTERS, "COUNTS": self.counts, "KEPT": self.kept, "__name__": f"scn_{name}"}
         exec(S.source(self.scn), self.ns)
         FN["shared"] = lambda x: CURRENT["world"].shared
         FN["plookup"] = lambda x: CURRENT["world"].shared if isinstance(x, str) and x == "s" else x
@@ -68,8 +76,16 @@ class World:
         self.dnc_attrs = {n: {a["name"] for a in c["attrs"] if a["dnc"]} for n, c in self.scn["classes"].items()}
         self.props = {n: [p["name"] for p in c["props"]] for n, c in self.scn["classes"].items()}
 
-    # ---- gamma: PyVal -> real object
+    # ---- gamma: PyVal -> real object (harness bookkeeping: never a fault point)
     def gamma(self, v):
+        with sched.untraced():
+            return self._gamma(v)
+
+    def alpha(self, x):
+        with sched.untraced():
+            return self._alpha(x)
+
+    def _gamma(self, v):
         t = v["t"]
         if t == "int":
             return v["i"]
@@ -86,23 +102,23 @@ class World:
         if t == "unchanged":
             return UNCHANGED
         if t == "list":
-            return [self.gamma(x) for x in v["e"]]
+            return [self._gamma(x) for x in v["e"]]
         if t == "tuple":
-            return tuple(self.gamma(x) for x in v["e"])
+            return tuple(self._gamma(x) for x in v["e"])
         if t == "set":
-            return {self.gamma(x) for x in v["e"]}
+            return {self._gamma(x) for x in v["e"]}
         if t == "dict":
-            return {self.gamma(e["k"]): self.gamma(e["v"]) for e in v["e"]}
+            return {self._gamma(e["k"]): self._gamma(e["v"]) for e in v["e"]}
         if t == "klist":
-            return KeyedList([self.gamma(x) for x in v["e"]])
+            return KeyedList([self._gamma(x) for x in v["e"]])
         if t == "kset":
-            return KeyedSet([self.gamma(x) for x in v["e"]])
+            return KeyedSet([self._gamma(x) for x in v["e"]])
         if t == "obj":
-            return self.classes[v["c"]](**{k: self.gamma(x) for k, x in v["a"].items() if x["t"] != "missing"})
+            return self.classes[v["c"]](**{k: self._gamma(x) for k, x in v["a"].items() if x["t"] != "missing"})
         raise ValueError(v)
 
     # ---- alpha: real object -> PyVal
-    def alpha(self, x):
+    def _alpha(self, x):
         if x is MISSING:
             return S.MISSING
         if x is None:
@@ -123,7 +139,7 @@ class World:
                 coherent = False
             if not coherent:
                 return {"t": "alien", "s": "keyed list whose key index disagrees with its items"}
-            return {"t": "klist", "e": [self.alpha(y) for y in x]}
+            return {"t": "klist", "e": [self._alpha(y) for y in x]}
         if isinstance(x, KeyedSet):
             try:
                 coherent = all(x.key(y) == k for k, y in x._dict.items())
@@ -131,22 +147,22 @@ class World:
                 coherent = False
             if not coherent:
                 return {"t": "alien", "s": "keyed set whose keys disagree with its items"}
-            return {"t": "kset", "e": [self.alpha(y) for y in x]}
+            return {"t": "kset", "e": [self._alpha(y) for y in x]}
         if isinstance(x, list):
-            return {"t": "list", "e": [self.alpha(y) for y in x]}
+            return {"t": "list", "e": [self._alpha(y) for y in x]}
         if isinstance(x, tuple):
-            return {"t": "tuple", "e": [self.alpha(y) for y in x]}
+            return {"t": "tuple", "e": [self._alpha(y) for y in x]}
         if isinstance(x, (set, frozenset)):
-            return {"t": "set", "e": sorted((self.alpha(y) for y in x), key=common.canon)}
+            return {"t": "set", "e": sorted((self._alpha(y) for y in x), key=common.canon)}
         if isinstance(x, dict):
-            return {"t": "dict", "e": [{"k": self.alpha(k), "v": self.alpha(v)} for k, v in x.items()]}
+            return {"t": "dict", "e": [{"k": self._alpha(k), "v": self._alpha(v)} for k, v in x.items()]}
         cname = self.by_type.get(type(x))
         if cname is not None:
             d = x.__dict__
-            attrs = {a["name"]: self.alpha(d.get(a["name"], MISSING)) for a in self.scn["classes"][cname]["attrs"]}
+            attrs = {a["name"]: self._alpha(d.get(a["name"], MISSING)) for a in self.scn["classes"][cname]["attrs"]}
             xs = {"_": S.MISSING}
             for p in self.props[cname]:
-                xs[p] = self.alpha(d.get(p, MISSING))
+                xs[p] = self._alpha(d.get(p, MISSING))
             extra = sorted(k for k in d if k not in attrs and k not in xs)
             out = {"t": "obj", "c": cname, "a": attrs, "x": xs}
             if extra:
@@ -156,6 +172,10 @@ class World:
 
     # ---- identity tokens of the mutable nodes reachable from x
     def tokens(self, x, reg, path="", out=None, skip_dnc=False, dnc_out=None):
+        with sched.untraced():
+            return self._tokens(x, reg, path, out, skip_dnc, dnc_out)
+
+    def _tokens(self, x, reg, path="", out=None, skip_dnc=False, dnc_out=None):
         if out is None:
             out = []
         mutable = isinstance(x, (list, dict, set, KeyedList, KeyedSet)) or type(x) in self.by_type
@@ -165,30 +185,36 @@ class World:
         if not mutable:
             if isinstance(x, tuple):
                 for i, y in enumerate(x):
-                    self.tokens(y, reg, f"{path}/{i}", out, skip_dnc, dnc_out)
+                    self._tokens(y, reg, f"{path}/{i}", out, skip_dnc, dnc_out)
             return out
         out.append([path, reg.token(x)])
         if type(x) in self.by_type:
             cname = self.by_type[type(x)]
             for k, v in x.__dict__.items():
                 if k in self.dnc_attrs[cname] and dnc_out is not None:
-                    self.tokens(v, reg, f"{path}/{k}", dnc_out)
-                self.tokens(v, reg, f"{path}/{k}", out, skip_dnc, dnc_out)
+                    self._tokens(v, reg, f"{path}/{k}", dnc_out)
+                self._tokens(v, reg, f"{path}/{k}", out, skip_dnc, dnc_out)
         elif isinstance(x, dict):
             for k, v in x.items():
-                self.tokens(v, reg, f"{path}/{k!r}", out, skip_dnc, dnc_out)
+                self._tokens(v, reg, f"{path}/{k!r}", out, skip_dnc, dnc_out)
         elif isinstance(x, (list, KeyedList)):
             for i, y in enumerate(x):
-                self.tokens(y, reg, f"{path}/{i}", out, skip_dnc, dnc_out)
+                self._tokens(y, reg, f"{path}/{i}", out, skip_dnc, dnc_out)
         elif isinstance(x, (set, KeyedSet)):
             for y in sorted(x, key=lambda z: common.canon(self.alpha(z))):
-                self.tokens(y, reg, f"{path}/{common.canon(self.alpha(y))[:20]}", out, skip_dnc, dnc_out)
+                self._tokens(y, reg, f"{path}/{common.canon(self.alpha(y))[:20]}", out, skip_dnc, dnc_out)
         return out
 
     def make(self, o):
         """Receiver for abstract state o, reached by a real history: constructor, then overrides, then the reads that
         fill the caches the state has (None when that history does not reproduce the state)."""
-        obj = self.gamma({"t": "obj", "c": o["c"], "a": o["a"]})
+        try:
+            obj = self.gamma({"t": "obj", "c": o["c"], "a": o["a"]})
+        except Exception:  # noqa: BLE001      (a state the constructor refuses, e.g. a preparer that rejects the value)
+            return None
+        if self.scn["classes"][o["c"]].get("post_keep"):
+            obj = self.kept[-1]          # the copy __post_init__ derived: judged on its own projected state
+            del self.kept[:]
         xs = {k: v for k, v in o.get("x", {}).items() if k != "_" and v["t"] != "missing"}
         if xs:
             ov = o.get("ov", {})
@@ -328,15 +354,20 @@ def call(world, obj, act, argsink):
 def execute(world, o, act, src="table", fault_at=None):
     """One event: build the receiver (and an identical peer), run the call, project everything.
     With fault_at=n the call is cut short by an InjectedFault raised at its n-th executed library line."""
-    reg = Registry()
     recv = world.make(o)
     if recv is None:
         return None
     peer = world.make(o)
+    return execute_on(world, recv, o.get("ov", {"_": False}), act, src, fault_at, peer)[0]
+
+
+def execute_on(world, recv, ov, act, src="table", fault_at=None, peer=None):
+    """The call `act` on an existing receiver (ov: the override ghost of its properties).  Returns (event, result object)."""
+    reg = Registry()
     pre = world.alpha(recv)
-    pre["ov"] = o.get("ov", {"_": False})
+    pre["ov"] = ov
     ids_pre = world.tokens(recv, reg)
-    peer_pre = world.alpha(peer)
+    peer_pre = world.alpha(peer) if peer is not None else None
     dflt_pre, dflt_tok = world.class_defaults(reg)
     args = []
     CURRENT["world"] = world
@@ -366,7 +397,7 @@ def execute(world, o, act, src="table", fault_at=None):
     args_same = all(world.alpha(obj) == before for obj, before in args)
     ev = {"scn": world.name, "a": act, "src": src, "pre": pre, "recv_post": recv_post, "res": res,
           "ids_same": ids_pre == ids_post, "same": result is recv, "args_same": args_same,
-          "peer_same": world.alpha(peer) == peer_pre, "dflt_same": world.class_defaults(reg)[0] == dflt_pre}
+          "peer_same": peer is None or world.alpha(peer) == peer_pre, "dflt_same": world.class_defaults(reg)[0] == dflt_pre}
     tok_recv = [t for _, t in ids_post]
     tok_args = [t for a, _ in args for _, t in world.tokens(a, reg)]
     if res == "ok" and type(result) in world.by_type:
@@ -379,22 +410,101 @@ def execute(world, o, act, src="table", fault_at=None):
         ev["result"] = S.MISSING if res != "ok" else world.alpha(result)
         tok_res = [] if res != "ok" else [t for _, t in world.tokens(result, reg)]
         ev["result_kind"] = "none" if res != "ok" else "other"
+    # attributes declared do_not_copy: is the very object of the receiver found in the derived instance?
+    ev["dnc_carried"] = []
+    if res == "ok" and result is not recv and type(result) is type(recv):
+        for n in sorted(world.dnc_attrs.get(world.by_type[type(recv)], ())):
+            if n in recv.__dict__ and n in result.__dict__ and isinstance(recv.__dict__[n], (list, dict, set)) or type(recv.__dict__.get(n)) in world.by_type:
+                ev["dnc_carried"].append({"n": n, "same": recv.__dict__.get(n) is result.__dict__.get(n, None)})
     if fault_at is not None:
         ev["fault_at"] = fault_at
         ev["fault_loc"] = list(fault_loc) if fault_loc else []
     ev["tok_recv"], ev["tok_res"], ev["tok_args"], ev["tok_dnc"], ev["tok_dflt"] = tok_recv, tok_res, tok_args, [t for _, t in dnc_tok], dflt_tok
-    return ev
+    return ev, result
+
+
+def run_history(job):
+    """Multi-step behaviours on persistent objects: a receiver built from a model state, then a seeded sequence of actions of the
+    exported universe; a copy-on-write result usually becomes the next receiver.  Every step is one event for the same judge (its
+    pre-state is the projection of the object as the previous steps left it), so states only histories reach are judged too:
+    raw defaults after reset, caches filled and invalidated, values handed over from earlier results, unset attributes."""
+    import random
+    name, states, acts, seed, n_hist, hist_len = job
+    w = World(name)
+    rnd = random.Random(f"{seed}-{name}-hist")
+    root = w.scn["root"]
+    props = w.props[root]
+    out = []
+    for h in range(n_hist):
+        o = rnd.choice(states)
+        recv = w.make(o)
+        if recv is None:
+            continue
+        ov = dict(o.get("ov", {"_": False}))
+        for k in props:
+            ov.setdefault(k, False)
+        for sq in range(hist_len):
+            a = rnd.choice(acts)
+            had = {k: k in recv.__dict__ for k in props}
+            ev, result = execute_on(w, recv, dict(ov), a, src="history")
+            ev["hid"], ev["seq"] = f"{name}-{seed}-{h}", sq
+            out.append(ev)
+            nxt = recv
+            if ev["res"] == "ok" and result is not recv and w.by_type.get(type(result)) == root and rnd.random() < 0.8:
+                nxt = result
+            if has_alien(ev["recv_post"] if nxt is recv else ev["result"]):
+                break          # reported at this step; the rest of the history would start from a state outside the model
+            ov = _next_ov(props, ov, had, nxt, a, ev)
+            recv = nxt
+    return out
+
+
+def has_alien(v):
+    """A projected value the model has no notion of (reported where it first appears; not used as a starting point afterwards)."""
+    if isinstance(v, dict):
+        return v.get("t") == "alien" or any(has_alien(x) for x in v.values())
+    if isinstance(v, list):
+        return any(has_alien(x) for x in v)
+    return False
+
+
+def _next_ov(props, ov, had, nxt, a, ev):
+    """Override ghost of the object carried on after a step (harness-side bookkeeping of what the instance dict cannot tell: an
+    entry is an override iff the last thing that put it there was an assignment to the property)."""
+    ov = dict(ov)
+    for k in props:
+        if k not in nxt.__dict__:
+            ov[k] = False
+        elif a["op"] == "override" and a.get("p") == k and ev["res"] == "ok":
+            ov[k] = True
+        elif not had[k]:
+            ov[k] = False
+    return ov
 
 
 def run_table(job):
     name, states, acts = job
     w = World(name)
+    root = w.scn["root"]
+    props = w.props[root]
     out = []
     for o in states:
         for a in acts:
-            ev = execute(w, o, a)
-            if ev is not None:
-                out.append(ev)
+            recv = w.make(o)
+            if recv is None:
+                continue
+            peer = w.make(o)
+            ov = dict(o.get("ov", {"_": False}))
+            for k in props:
+                ov.setdefault(k, False)
+            had = {k: k in recv.__dict__ for k in props}
+            ev, result = execute_on(w, recv, dict(ov), a, "table", None, peer)
+            out.append(ev)
+            # the same call once more on what it returned: x.op(...).op(...) reaches states (and sharing) a single call from a
+            # constructor-built receiver cannot, e.g. a reset of an instance that itself came out of a reset
+            if a.get("inplace") is False and ev["res"] == "ok" and result is not recv and w.by_type.get(type(result)) == root and not has_alien(ev["result"]):
+                ev2, _ = execute_on(w, result, _next_ov(props, ov, had, result, a, ev), a, "table2")
+                out.append(ev2)
     return out
 
 
